@@ -2,7 +2,7 @@
    Definitions only (total, computable).  A [Choice] is one call to Python's RNG; its label says
    which call (function and arguments), its branches are the possible results in a fixed order
    with their exact probabilities.  [Rej] is a RejectionException / rejected simulation. *)
-From Coq Require Import QArith ZArith List Bool.
+From Coq Require Import QArith ZArith List Bool Qround.
 Import ListNotations.
 Open Scope Q_scope.
 
@@ -142,6 +142,14 @@ Definition uniform_tree (l : label) (vals : list Z) : ptree Z :=
 Definition randint_tree (lo hi : Z) : ptree Z :=
   uniform_tree (LRandint lo hi) (zrange lo (Z.to_nat (hi - lo + 1))).
 
+(* DiscreteRange(low, high).sampleGiven, unweighted, for arbitrary (rational) endpoint values:
+   left, right = math.ceil(low), math.floor(high); RejectionException when right < left;
+   else random.randint(left, right) *)
+Definition ndrange_tree (lo hi : Q) : ptree Z :=
+  let l := Qceiling lo in
+  let r := Qfloor hi in
+  if Z.ltb r l then Rej else randint_tree l r.
+
 (* successive differences of cumulative weights *)
 Fixpoint diffs (prev : Q) (cum : list Q) : list Q :=
   match cum with [] => [] | c :: r => (c - prev) :: diffs c r end.
@@ -157,6 +165,11 @@ Fixpoint accumulate (acc : Q) (ws : list Q) : list Q :=
   match ws with [] => [] | w :: r => (acc + w) :: accumulate (acc + w) r end.
 
 Definition weighted_tree (ws : list Q) : ptree Z := choices_tree (accumulate 0 ws).
+
+(* weighted DiscreteRange(lo, lo + n - 1, weights = ws).sampleGiven:
+   random.choices(range(lo, hi + 1), cum_weights = accumulate(ws))[0]  (zero weights are kept) *)
+Definition wrange_tree (lo : Z) (ws : list Q) : ptree Z :=
+  bind (weighted_tree ws) (fun k => Ret (lo + k)%Z).
 
 (* random.random() <= p *)
 Definition bern_tree (p : Q) : ptree bool :=
